@@ -1077,10 +1077,13 @@ def main(chk: core.Check) -> int:
 
     chk.rule = RULE
     H11.translate(chk)  # Props/C10 depends on the generated DistInt definitions through Model/Dist
+    from verif.props import c11_gen
+    c11_gen.regenerate(chk)  # T-transform: the projection _untransform_numerical_param as written today (Props/C11Gen, C10Gen)
     from verif.props import c15_nsga
     c15_nsga.translate(chk)  # T-nsga2: content keys of the NSGA-II functions mirrored by Model/Nsga2.lean
     if not getattr(chk, "no_prove", False):
-        chk.prove(["OptunaVerif.Props.C10", "OptunaVerif.Props.C10Nsga"])
+        chk.prove(c11_gen.prove_modules("C10"))
+        c11_gen.explain_proof_failure(chk)
     try:
         core.ensure_driver()
         c15_nsga.correspond(chk, chk.tier)  # NSGA-II crossover / mutation pipeline (+ whole-sampler replay)
